@@ -5,7 +5,7 @@ from genlib import *
 LEAN_MODULES = ["MpirProofs.Props.C03_mpz"]
 THEOREMS = ["Mpir.Mpz.mpz_add_exact", "Mpir.Mpz.mpz_sub_exact", "Mpir.Mpz.mpz_add_ui_exact", "Mpir.Mpz.mpz_sub_ui_exact",
             "Mpir.Mpz.mpz_ui_sub_exact", "Mpir.Mpz.mpz_neg_exact", "Mpir.Mpz.mpz_abs_exact", "Mpir.Mpz.mpz_mul_2exp_exact",
-            "Mpir.Mpz.mpz_set_exact", "Mpir.Mpz.mpz_swap_exact"]
+            "Mpir.Mpz.mpz_set_exact", "Mpir.Mpz.mpz_swap_exact", "Mpir.Mpz.mpz_add_alias_ok"]
 TRUSTED = ["hand-written object-layer model lean/Mpir/Model/Mpz.lean (mirrors mpz/aors.h, aors_ui.h, ui_sub.c, neg.c, abs.c, "
            "set.c, swap.c, mul_2exp.c; tied by correspondence on every run)"]
 ASSUMPTIONS = ["the mpz model is value-level: limbs of a block above |size| are not represented, and aliasing enters only through "
